@@ -76,6 +76,13 @@ func (reg *Reg) TagDelete(ctx context.Context, r ref.Ref) error {
 	if err != nil {
 		return err
 	}
+	// without a digest the manifest cannot be found again after the tag has been replaced, pull it now
+	if curManifest.GetDescriptor().Digest == "" {
+		curManifest, err = reg.ManifestGet(ctx, r)
+		if err != nil {
+			return err
+		}
+	}
 
 	// create empty image config with single label
 	// Note, this should be MediaType specific, but it appears that docker uses OCI for the config
@@ -190,10 +197,16 @@ func (reg *Reg) TagDelete(ctx context.Context, r ref.Ref) error {
 	err = reg.ManifestDelete(ctx, r)
 	if err != nil {
 		// the registry does not delete manifests either, point the tag back at its manifest rather than leaving the dummy there
-		if origDigest := curManifest.GetDescriptor().Digest.String(); origDigest != "" {
-			if origManifest, errGet := reg.ManifestGet(ctx, rTag.SetDigest(origDigest)); errGet == nil {
-				_ = reg.ManifestPut(ctx, rTag, origManifest)
+		origManifest := curManifest
+		if !origManifest.IsSet() {
+			var errGet error
+			origManifest, errGet = reg.ManifestGet(ctx, rTag.SetDigest(curManifest.GetDescriptor().Digest.String()))
+			if errGet != nil {
+				origManifest = nil
 			}
+		}
+		if origManifest != nil {
+			_ = reg.ManifestPut(ctx, rTag, origManifest)
 		}
 		return fmt.Errorf("failed deleting dummy manifest for %s: %w", r.CommonName(), err)
 	}
